@@ -5,6 +5,7 @@ import InTotoModel.Driver.JsonProto
 import InTotoModel.Model.Signed
 import InTotoModel.Model.JsonParse
 import InTotoModel.Model.Threshold
+import InTotoModel.Driver.RulesProto
 /-
   Executable model driver: one operation per input line, one canonical answer per line.
   Unknown or malformed operations answer `bad-op` (never a default).
@@ -69,6 +70,30 @@ def step (line : String) : String :=
         | .err _ => "err"
         | .panic n => s!"panic {n}"
       | _ => "bad-op"
+  | ["glob", p, t] =>
+    match strOfHex p, strOfHex t with
+    | some p, some t =>
+      match Glob.globMatch p t with
+      | some b => toString b
+      | none => "none"
+    | _, _ => "bad-op"
+  | ["clean", p] =>
+    match strOfHex p with
+    | some p => hexOfStr (PathClean.clean p)
+    | none => "bad-op"
+  | "rules" :: toks =>
+    match readRulesScenario toks with
+    | some (item, links) =>
+      match Rules.applyRulesOnLink item links with
+      | .ok () => "ok"
+      | .err _ => "err"
+      | .panic n => s!"panic {n}"
+    | none => "bad-op"
+  | "rulespec" :: toks =>
+    match readRulesScenario toks with
+    | some (item, links) =>
+      if RulesSpec.Normalized item links then toString (RulesSpec.verdict item links) else "na"
+    | none => "bad-op"
   | _ => "bad-op"
 
 partial def loop (h : IO.FS.Stream) (out : IO.FS.Stream) : IO Unit := do
